@@ -84,7 +84,7 @@ META.update({
               'Trusted: inspect.signature; kw-only/positional-only parameters belong to C18.'),
     'C18': _m('runtime monitoring: exhaustive grid of generated def statements through six description routes vs inspect.signature',
               '3.18', 'Held on the complete 756-function grid x 6 routes and the shipped ABC interfaces.', 'Trusted: inspect.signature.'),
-    'C11': _m('runtime monitoring + sanitizers: enumerated callback-point x action x entry-point fault injection with answer oracle and cache-ownership audit; leak meters; thread stress with generation-stamped values and quiescence oracle; valgrind memcheck (deciding for freed-memory access) and ASan/UBSan on the rebuilt extension',
+    'C11': _m('runtime monitoring + sanitizers: enumerated callback-point x action x entry-point fault injection with answer oracle and cache-ownership audit; leak meters; thread stress with generation-stamped values and quiescence oracle; mutation-window and subscription races with sys.monitoring yield injection; valgrind memcheck (deciding for freed-memory access) and ASan/UBSan on the rebuilt extension',
               '3.11', 'Held on the enumerated fault product (about 2400 reached cells per run in py and c) and on the recorded thread schedules; '
               'valgrind memcheck reports no error on the scripted cases run with the dict-free-list flood.  Says nothing about callback points the product does not contain or schedules the GIL did not produce.',
               'Trusted: valgrind memcheck with PYTHONMALLOC=malloc; cold-replay answers as the before/after reference; refcount ownership rule of the audit.'),
